@@ -110,3 +110,46 @@ def major_case(cid, gene, coverage, cn_solution, result, origin=None):
         "vars": [{"si": site_idx[pos], "ins": op.startswith("ins"), "pos": pos - origin, "op": op} for pos, op in live_vars],
         "cfgs": cfgs, "struct": struct, "alleles": alleles, "result": res,
     }
+
+
+# --------------------------------------------------------------------------- CN
+KIND = {"DEFAULT": "default", "LEFT_FUSION": "left", "RIGHT_FUSION": "right", "DELETION": "deletion", "CUSTOM": "custom"}
+
+
+def cn_case(cid, gene, profile, configs, max_cn, region_cov, fusion_support, result, raised="", fs_raw=None):
+    """Case record of spec/CNModel.tla for one solve_cn_model call.
+    fs_raw: {name: (a, b)} integer counters the float fusion_support values were made from."""
+    regions = [r for r in gene.unique_regions if r in region_cov]
+    nU = len(gene.unique_regions)
+    names = natsorted(configs)
+    idx = {n: i + 1 for i, n in enumerate(names)}
+    has_pseudo = len(gene.regions) > 1
+    cfgs = []
+    for n in names:
+        c = configs[n]
+        a, b = (fs_raw or {}).get(n, (0, -1))
+        cfgs.append({
+            "name": n, "kind": KIND[c.kind.name],
+            "g": [int(c.cn[0][r]) for r in regions],
+            "ps": [int(c.cn[1][r]) if has_pseudo else 0 for r in regions],
+            "fsA": int(a), "fsB": int(b),
+        })
+    regs = []
+    for r in regions:
+        c0, c1 = region_cov[r]
+        regs.append({"name": r, "c0": int(round(c0 * 100)), "c1": int(round(c1 * 100)),
+                     "w10": int(round(profile.cn_pce_penalty * 10)) if r == "pce" else 10})
+    gn, gd = frac(profile.gap, 100)
+    p = {
+        "diff10": int(round(profile.cn_diff * 10)), "fit10": int(round(profile.cn_fit * 10)),
+        "pars": int(round(profile.cn_parsimony * 7.5 * U)),
+        "parsL": int(round(profile.cn_parsimony * 7.5 * profile.cn_fusion_left * U)),
+        "parsR": int(round(profile.cn_parsimony * 7.5 * profile.cn_fusion_right * U)),
+        "cnMax100": int(profile.cn_max) * 100, "gapN": gn, "gapD": gd,
+    }
+    res = []
+    for s in result:
+        res.append({"score": int(round(s.score * nU * 100 * U)),
+                    "cfgs": sorted(idx[n] for n, k in s.solution.items() for _ in range(k))})
+    return {"id": cid, "p": p, "M": int(max_cn), "regs": regs, "cfgs": cfgs, "pseudo": has_pseudo,
+            "fs": bool(fusion_support), "result": res, "raised": raised, "nU": nU}
